@@ -175,7 +175,8 @@ def run(ctx):
     import gen_units
     gen_units.g_unit(ctx, "translate_coreopt")
     gen_units.g_unit(ctx, "translate_init")
-    core_units.run(ctx, which="C02")
+    import common as _common
+    _common.guarded(ctx, "K/S-units", core_units.run, ctx, which="C02")
     ctx.monitor_rule = ("every parameter set handed to the objective satisfies the constraint (half-spaces, parity / band lattices, "
                         "random masks, constraints coupling several parameters with long iteration phases; feasible fraction >= 25%), best_para too; all 22 optimizers, both grid directions, "
                         "DownhillSimplex with fewer inits than dims+1, populations larger than the number of inits, repeated "
